@@ -36,6 +36,7 @@ func (h H) configChangeGates(rule string) {
 		names = append(names, h.site(fn, dcc, k))
 	}
 	h.C.Floor(rule+" (config-changing calls in onChangeConfig)", len(targets), 2)
+	direct := 0
 	for i, t := range targets {
 		h.gate(rule+" previous-config-committed", names[i], t, isCommittedAtom())
 		// the remaining gates validate the request when it is accepted; the commit index
@@ -48,6 +49,18 @@ func (h H) configChangeGates(rule string) {
 		r := fi.MustCross(t, func(a core.Atom) bool {
 			return a.Op == "!=" && ((a.L == "0" && strings.HasPrefix(a.R, "phi(0, ")) || (a.R == "0" && strings.HasPrefix(a.L, "phi(0, ")))
 		})
+		if !r.OK {
+			// direct form (a flag set, or an early exit taken, where the node is
+			// found): every path to the site crosses, for an element of the new
+			// configuration, the edges n.Voter and n.Action == None
+			nv := h.holderOf(fn, "each(changeConfig.newConf.Nodes).val")
+			d1 := fi.MustCrossAtom(t, core.BoolAtom(nv+".Voter", true))
+			d2 := fi.MustCrossAtom(t, core.MkAtom(nv+".Action", "==", h.constStr("raft:None")))
+			if nv != "" && d1.OK && d2.OK {
+				r.OK = true
+				direct++
+			}
+		}
 		h.C.Check(rule+" voter-remains", names[i], r.OK, h.pos(t), "request accepted without checking that a voter without pending action remains: "+r.Witness)
 	}
 	// the voter witness is only assigned under n.Voter && n.Action == None of the new configuration
@@ -67,21 +80,16 @@ func (h H) configChangeGates(rule string) {
 					nAssign++
 					pred := b.Preds[i]
 					last := pred.Instrs[len(pred.Instrs)-1]
-					var nv string
-					core.Instrs(fn, func(in2 ssa.Instruction) {
-						if st, ok := in2.(*ssa.Store); ok && fi.Sym(st.Val).String() == "each(changeConfig.newConf.Nodes).val" && core.Dominates(st, last) {
-							nv = fi.Sym(st.Addr).String()
-						}
-					})
-					if nv == "" {
-						nv = "each(changeConfig.newConf.Nodes).val"
-					}
+					nv := h.holderOf(fn, "each(changeConfig.newConf.Nodes).val")
 					r1 := fi.MustCrossAtom(last, core.BoolAtom(nv+".Voter", true))
 					r2 := fi.MustCrossAtom(last, core.MkAtom(nv+".Action", "==", h.constStr("raft:None")))
 					h.C.Check(rule+" voter-witness", "(*leader).onChangeConfig voter-witness", r1.OK && r2.OK, h.pos(last), "the remaining-voter witness is assigned without n.Voter && n.Action == None: "+r1.Witness+r2.Witness)
 				}
 			}
 		}
+	}
+	if direct == len(targets) && direct > 0 && nAssign == 0 {
+		nAssign = 1 // no witness variable: the test itself lies on every path
 	}
 	h.C.Floor(rule+" (voter witness assignments)", nAssign, 1)
 	// loop invariants: nothing removed, no voting right changed, new nodes are non-voters
@@ -90,38 +98,25 @@ func (h H) configChangeGates(rule string) {
 	if hd == nil {
 		h.C.Check(rule+" loop present", "(*leader).onChangeConfig range Latest.Nodes", false, h.fpos(fn), "validation loop over the current configuration not found")
 	} else {
-		var n, nn string
-		core.Instrs(fn, func(in ssa.Instruction) {
-			if st, ok := in.(*ssa.Store); ok {
-				v := fi.Sym(st.Val).String()
-				if v == "each("+latestNodes+").val" {
-					n = fi.Sym(st.Addr).String()
-				}
-				if v == "changeConfig.newConf.Nodes[each("+latestNodes+").key]" {
-					nn = fi.Sym(st.Addr).String()
-				}
-			}
-		})
+		n := h.holderOf(fn, "each("+latestNodes+").val")
+		nn := h.holderOf(fn, "changeConfig.newConf.Nodes[each("+latestNodes+").key]")
+		if nn == "changeConfig.newConf.Nodes[each("+latestNodes+").key]" {
+			nn = h.holderOf(fn, "changeConfig.newConf.Nodes[each("+latestNodes+").key]#0")
+		}
+		nn = strings.TrimSuffix(nn, "#0") // field reads of a comma-ok lookup's value are named without the tuple index
 		r := fi.LoopBodyMustCross(hd, func(a core.Atom) bool {
 			return a.Op == "true" && a.L == "ok(changeConfig.newConf.Nodes[each("+latestNodes+").key])"
 		})
 		h.C.Check(rule+" no-node-removed", "(*leader).onChangeConfig range Latest.Nodes", r.OK, h.pos(hd.Instrs[len(hd.Instrs)-1]), "a node of the current configuration may be missing from the request: "+r.Witness)
 		want := core.MkAtom(n+".Voter", "==", nn+".Voter")
 		r = fi.LoopBodyMustCross(hd, func(a core.Atom) bool { return n != "" && nn != "" && a.Implies(want) })
-		h.C.Check(rule+" voting-right-unchanged", "(*leader).onChangeConfig range Latest.Nodes", r.OK, h.pos(hd.Instrs[len(hd.Instrs)-1]), "a request may change a node's voting right directly: "+r.Witness)
+		h.C.Check(rule+" voting-right-unchanged", "(*leader).onChangeConfig range Latest.Nodes", r.OK, h.pos(hd.Instrs[len(hd.Instrs)-1]), "a request may change a node's voting right directly (looked for "+want.String()+"): "+r.Witness)
 	}
 	hd = fi.RangeHeader("changeConfig.newConf.Nodes", 0)
 	if hd == nil {
 		h.C.Check(rule+" loop present", "(*leader).onChangeConfig range newConf.Nodes", false, h.fpos(fn), "validation loop over the requested configuration not found")
 	} else {
-		var n string
-		core.Instrs(fn, func(in ssa.Instruction) {
-			if st, ok := in.(*ssa.Store); ok && st.Block().Dominates(hd.Succs[0]) || ok && st.Block() == hd.Succs[0] {
-				if fi.Sym(st.Val).String() == "each(changeConfig.newConf.Nodes).val" && n == "" {
-					n = fi.Sym(st.Addr).String()
-				}
-			}
-		})
+		n := h.holderOf(fn, "each(changeConfig.newConf.Nodes).val")
 		r := fi.LoopBodyMustCross(hd, func(a core.Atom) bool {
 			return (a.Op == "true" && a.L == "ok("+latestNodes+"[each(changeConfig.newConf.Nodes).key])") ||
 				(a.Op == "false" && a.L == n+".Voter")
@@ -199,10 +194,23 @@ func (h H) voterFlips(rule string) {
 	voter := h.P.Field("raft:Node.Voter")
 	n := 0
 	for _, s := range h.P.StoresTo(voter) {
-		root := core.Root(s.Fn)
-		rn := h.name(root)
-		if rn != "(*leader).checkConfigAction" && rn != "(*leader).checkConfigActions" {
+		// (stores in a new helper count for the known functions calling it)
+		rn := ""
+		for _, r := range h.effectiveRoots(s.Fn) {
+			if r == "(*leader).checkConfigAction" || r == "(*leader).checkConfigActions" {
+				if rn == "" || r == "(*leader).checkConfigAction" {
+					rn = r
+				}
+			}
+		}
+		if rn == "" {
 			continue
+		}
+		// a store shared through a new helper stands for one store in each known caller
+		for _, r := range h.effectiveRoots(s.Fn) {
+			if r != rn && (r == "(*leader).checkConfigAction" || r == "(*leader).checkConfigActions") {
+				n++
+			}
 		}
 		n++
 		v := h.P.Info(s.Fn).Sym(storeVal(s.Instr)).String()
@@ -210,9 +218,10 @@ func (h H) voterFlips(rule string) {
 		if v == "true" {
 			ok := rn == "(*leader).checkConfigAction"
 			if ok {
-				r := fi.MustCross(s.Instr, func(a core.Atom) bool {
+				r := h.P.Info(s.Fn).MustCross(s.Instr, func(a core.Atom) bool {
 					return a.Op == "==" && a.R == h.constStr("raft:Promote") && strings.HasPrefix(a.L, "(Node).nextAction(")
 				})
+				_ = fi
 				ok = r.OK
 			}
 			h.C.Check(rule, construct, ok, h.pos(s.Instr), "a node is made voter outside the promote action")
